@@ -18,6 +18,8 @@ def run(ctx):
         "M2 certified producers: san::Data::into_move returns Ok only after validate or from a LegalFilter-fed searcher (C09/S1)",
         "M4 every path returning Err has not mutated the board, or has rolled back with the same move and the undo record of that make; "
         "Ok paths return exactly (the move made, its undo record)",
+        "M4u the rollback itself is exact: do_unmake_move on the abstract post-state of every kind and colour ends in the pre-state, "
+        "occupancy sets included (= C04/K2) - so a refused promotion or capture leaves no ghost man in the sets",
         "M6 Board's fields are written only in board.rs and moves/base.rs and are not visible outside the crate; the unchecked API stays unsafe",
         "M7 the pin shortcut is never taken by an en passant capture (C01/N2); validation gate structure is C11/V1",
         "M9 the position left by do_make_move is, per abstract case, the one the rules prescribe, with castling rights re-examined for "
@@ -45,6 +47,9 @@ def run(ctx):
         "M9": ("a made move leaves a raw board that validation would not alter: squares, side, en-passant mark, castling rights "
                "re-examined on every changed home square, counters in range (abstract board, shared with C03)",
                ("cells", "fields", "castling", "counter", "unmodelled"), "make/"),
+        "M4u": ("the rollback of a refused move (M4) restores squares, occupancy sets and all scalar fields exactly: do_unmake_move "
+                "interpreted on the abstract post-state of every kind (shared with C04/K2)",
+                ("undo", "cells", "occupancy", "unmodelled"), "unmake/"),
     })
     witness.cf_rule(ctx, 'M6w', ('cf/C02/', 'cf/C19/unsafe-make', 'cf/C19/unsafe-new'),
                     'safe code outside the crate cannot reach the unchecked make/constructors or the raw board inside a Board (compile-fail witnesses)')
